@@ -4,7 +4,10 @@ use crate::Ctx;
 
 pub mod c01;
 pub mod c03;
+pub mod c04;
 pub mod c05;
+pub mod c06;
+pub mod c07;
 pub mod c08;
 pub mod c13;
 pub mod c14;
@@ -17,7 +20,10 @@ pub fn run(id: &str, ctx: &Ctx) -> Option<Report> {
     Some(match id {
         "C01" => c01::run(ctx),
         "C03" => c03::run(ctx),
+        "C04" => c04::run(ctx),
         "C05" => c05::run(ctx),
+        "C06" => c06::run(ctx),
+        "C07" => c07::run(ctx),
         "C08" => c08::run(ctx),
         "C13" => c13::run(ctx),
         "C14" => c14::run(ctx),
